@@ -287,3 +287,11 @@ Definition construct (its : list item) (s : strategy) : cstate * (Z + err) :=
 
 (* "the placement cache, whenever present, equals the summary recomputed from the moments" *)
 Definition cache_ok (c : cstate) : Prop := forall p, cache c = Some p -> cache_matches p (moms c).
+
+(* Cirq's conflict rule between two operations: a shared qubit, a shared measurement key, or a
+   measurement key of one that is a control key of the other (control keys alone commute) *)
+Definition conflicts (x o : opd) : bool :=
+  negb (disjointb (qs o) (qs x))
+  || negb (disjointb (mk o) (mk x))
+  || negb (disjointb (ck o) (mk x))
+  || negb (disjointb (ck x) (mk o)).
